@@ -764,3 +764,97 @@ def concrete(x, model):
     if isinstance(x, dict):
         return {k: concrete(v, model) for k, v in x.items()}
     return x
+
+
+def explore_forked(harness, on_path, max_paths=None, timeout_ms=5000, stats=None, round_mode='exact', deadline=None):
+    """Like explore(), but every path runs in a freshly forked child process, so that state the
+    code under analysis keeps at module or class level cannot leak from one path into the next
+    (or into the replay of a counterexample).  on_path(ctx, result_or_Abort) runs in the child and
+    must return something picklable; the generator yields those values."""
+    import os
+    import pickle
+    stats = stats if stats is not None else Stats()
+    frames = []
+    n = 0
+    explore.last_exhaustive = False
+    while True:
+        r, w = os.pipe()
+        pid = os.fork()
+        if pid == 0:
+            os.close(r)
+            code = 0
+            try:
+                st = Stats()
+                ctx = Ctx(prefix=[f[0] for f in frames], timeout_ms=timeout_ms, stats=st, round_mode=round_mode)
+                ctx.deadline = deadline
+                Ctx.cur = ctx
+                try:
+                    res = harness(ctx)
+                except Abort as a:
+                    res = a
+                    st.aborted += 1
+                summary = on_path(ctx, res)
+                payload = pickle.dumps(([(k, list(rem or [])) if rem is not None else (k, None) for k, rem in ctx.trail],
+                                        summary, st.__dict__))
+            except BaseException as ex:         # noqa
+                import traceback
+                payload = pickle.dumps((None, 'child failed: %s: %s\n%s' % (type(ex).__name__, ex, traceback.format_exc()[-800:]), {}))
+                code = 1
+            with os.fdopen(w, 'wb') as f:
+                f.write(payload)
+            os._exit(code)
+        os.close(w)
+        with os.fdopen(r, 'rb') as f:
+            data = f.read()
+        os.waitpid(pid, 0)
+        trail, summary, sd = pickle.loads(data) if data else (None, 'child died without a result', {})
+        n += 1
+        stats.paths += 1
+        for k, v in sd.items():
+            if k == 'max_depth':
+                stats.max_depth = max(stats.max_depth, v)
+            elif k != 'paths':
+                setattr(stats, k, getattr(stats, k) + v)
+        if trail is None:
+            yield ('error', summary)
+            return
+        stats.max_depth = max(stats.max_depth, len(trail))
+        for i, (key, rem) in enumerate(trail):
+            if i >= len(frames):
+                frames.append([key, list(rem or [])])
+        del frames[len(trail):]
+        yield ('ok', summary)
+        while frames and not frames[-1][1]:
+            frames.pop()
+        if not frames:
+            explore.last_exhaustive = True
+            return
+        if (max_paths is not None and n >= max_paths) or (deadline and time.time() > deadline):
+            return
+        f = frames[-1]
+        f[0] = f[1].pop(0)
+
+
+def run_in_child(fn):
+    """Run fn() in a freshly forked process and return its (picklable) result."""
+    import os
+    import pickle
+    r, w = os.pipe()
+    pid = os.fork()
+    if pid == 0:
+        os.close(r)
+        try:
+            payload = pickle.dumps(('ok', fn()))
+        except BaseException as ex:     # noqa
+            payload = pickle.dumps(('error', '%s: %s' % (type(ex).__name__, ex)))
+        with os.fdopen(w, 'wb') as f:
+            f.write(payload)
+        os._exit(0)
+    os.close(w)
+    with os.fdopen(r, 'rb') as f:
+        data = f.read()
+    os.waitpid(pid, 0)
+    kind, val = pickle.loads(data) if data else ('error', 'child died')
+    if kind == 'error':
+        raise RuntimeError('child process failed: %s' % val)
+    return val
